@@ -179,6 +179,8 @@ class CFGBuilder:
         self._loop_info: Dict[int, Dict[str, object]] = {}
         self._inline_join: Dict[int, int] = {}
         self._inline_cond: Dict[int, Tuple[int, int]] = {}
+        self._inline_cond_wrap: Dict[int, str] = {}
+        self._cond_none: Optional[str] = None
         self._want_cond = False
         self._cond_result: Optional[Tuple[Pending, Pending]] = None
         self._inline_stack: List[str] = [fn.qname]
@@ -538,9 +540,13 @@ class CFGBuilder:
         uid = self._next_uid()
         join = self.new("join", None, stmt)
         self._inline_join[uid] = join
+        wrap = self._cond_none if as_cond else None
+        self._cond_none = None
         if as_cond:
             tj = self.new("join", None, stmt)
             self._inline_cond[uid] = (tj, join)  # falling off the end returns None: the false side
+            if wrap:
+                self._inline_cond_wrap[uid] = wrap
         self.g.inline_returns.setdefault(id(call), [])
         self.g.inlined_calls[id(call)] = t
         self._inline_stack.append(t.qname)
@@ -552,7 +558,10 @@ class CFGBuilder:
             self.frames.pop()
             self._inline_stack.pop()
             self.fn = saved_fn
-        self.connect(out, join)
+        if as_cond and wrap == "is":
+            self.connect(out, self._inline_cond[uid][0])  # falling off the end returns None, and `None is None` holds
+        else:
+            self.connect(out, join)
         if as_cond:
             return [(self._inline_cond[uid][0], "norm")], [(join, "norm")]
         return [(join, "norm")]
@@ -602,6 +611,18 @@ class CFGBuilder:
             self._want_cond, self._cond_result = True, None
             pending = self.expr(e, pending, stmt)
             self._want_cond = False
+            if self._cond_result is not None:
+                res, self._cond_result = self._cond_result, None
+                return res
+        elif isinstance(e, ast.Compare) and len(e.ops) == 1 and isinstance(e.ops[0], (ast.Is, ast.IsNot)) and isinstance(e.left, ast.Call) \
+                and isinstance(e.comparators[0], ast.Constant) and e.comparators[0].value is None:
+            # `if helper(..) is not None:` with the helper analysed in place: each `return <expr>` becomes a test of
+            # `<expr> is not None` (a `return None` reaches only the false side)
+            self._want_cond, self._cond_result = True, None
+            self._cond_none = "is" if isinstance(e.ops[0], ast.Is) else "isnot"
+            pending = self.expr(e.left, pending, stmt)
+            self._want_cond = False
+            self._cond_none = None
             if self._cond_result is not None:
                 res, self._cond_result = self._cond_result, None
                 return res
@@ -669,6 +690,16 @@ class CFGBuilder:
             inl = next((fr for fr in reversed(self.frames) if fr.kind == "inline"), None)
             if inl is not None and inl.uid in self._inline_cond:
                 val = st.value if st.value is not None else ast.copy_location(ast.Constant(value=None), st)
+                wrap_ = self._inline_cond_wrap.get(inl.uid)
+                if wrap_:
+                    if isinstance(val, ast.Constant):
+                        val = ast.copy_location(ast.Constant(value=(val.value is None) == (wrap_ == "is")), st)
+                    elif isinstance(val, (ast.Dict, ast.List, ast.Tuple, ast.Set, ast.JoinedStr)):
+                        val = ast.copy_location(ast.Constant(value=(wrap_ != "is")), st)  # a display is never None
+                    else:
+                        val = ast.copy_location(ast.Compare(left=val, ops=[ast.Is() if wrap_ == "is" else ast.IsNot()],
+                                                            comparators=[ast.Constant(value=None)]), st)
+                        ast.fix_missing_locations(val)
                 tp, fp = self.cond(val, pending, st)
                 for pend, kind in ((tp, "return_t"), (fp, "return_f")):
                     if not pend:
